@@ -780,6 +780,30 @@ class C:
     def __ne__(self, o):
         return self._rel(o, "ne")
 
+    def _order(self, o, strict_op, op):
+        """NumPy orders complex numbers lexicographically (real part first)."""
+        o = C.of(o)
+        if o is None:
+            return NotImplemented
+        a = getattr(self.re, strict_op)(o.re)
+        e = self.re == o.re
+        b = getattr(self.im, op)(o.im)
+        if all(isinstance(v, bool) for v in (a, e, b)):
+            return a or (e and b)
+        return SB(z3.Or(SB._t(a), z3.And(SB._t(e), SB._t(b))))
+
+    def __lt__(self, o):
+        return self._order(o, "__lt__", "__lt__")
+
+    def __le__(self, o):
+        return self._order(o, "__lt__", "__le__")
+
+    def __gt__(self, o):
+        return self._order(o, "__gt__", "__gt__")
+
+    def __ge__(self, o):
+        return self._order(o, "__gt__", "__ge__")
+
     def __hash__(self):
         return id(self)
 
@@ -805,6 +829,107 @@ class C:
 
     def __repr__(self):
         return "C(%r, %r)" % (self.re, self.im)
+
+
+class NormVal(R):
+    """Result of a vector norm: a non-negative real that remembers its square, so that comparisons
+    and ratios of norms are decided on squares (polynomial) and the SQRT term is built only on demand."""
+    __slots__ = ("sq", "elems")
+
+    def __init__(self, sq, elems=None):
+        R.__init__(self, q=None, n=None, d=())
+        self.sq = sq
+        self.elems = elems      # entries of the vector, if known: |x| == 0  <=>  every entry is 0 (linear)
+
+    @staticmethod
+    def make(sq, elems=None):
+        sq = R.of(sq)
+        if sq.q is not None:
+            from . import axioms
+            return axioms.sqrt(sq)
+        return NormVal(sq, elems)
+
+    def _zero_test(self, op):
+        ts = []
+        kn = _ctx.current().known_nonzero if _ctx.has_current() else ()
+        for e in self.elems:
+            for part in ((e.re, e.im) if isinstance(e, C) else (e,)):
+                if isinstance(part, R) and part.q is None and not part.d and part.n.get_id() in kn:
+                    return op in ("ne", "gt")
+            z = (e == 0)
+            if isinstance(z, (bool, np.bool_)):
+                if not z:
+                    return op in ("ne", "gt")
+                continue
+            ts.append(z.t)
+        if not ts:
+            return op in ("eq", "le")
+        allzero = z3.And(*ts) if len(ts) > 1 else ts[0]
+        return SB(allzero if op in ("eq", "le") else z3.Not(allzero))
+
+    @property
+    def n(self):
+        if self._n is None:
+            from . import axioms
+            r = axioms.sqrt(self.sq)
+            self._n = r.n
+            self.d = r.d
+        return self._n
+
+    def __truediv__(self, o):
+        if isinstance(o, NormVal):
+            return NormVal.make(self.sq / o.sq)
+        o2 = R.of(o)
+        if o2 is not None and o2.q is not None and o2.q > 0:
+            return NormVal.make(self.sq / (o2.q * o2.q))
+        return R.__truediv__(self, o)
+
+    def __mul__(self, o):
+        if isinstance(o, NormVal):
+            return NormVal.make(self.sq * o.sq)
+        o2 = R.of(o)
+        if o2 is not None and o2.q is not None and o2.q >= 0:
+            return NormVal.make(self.sq * (o2.q * o2.q))
+        return R.__mul__(self, o)
+
+    __rmul__ = __mul__
+
+    def _rel(self, o, op):
+        if isinstance(o, NormVal):
+            return self.sq._rel(o.sq, op)
+        o2 = R.of(o)
+        if o2 is not None and o2.q is not None:
+            if o2.q == 0 and self.elems is not None and op in ("eq", "ne", "le", "gt"):
+                return self._zero_test(op)
+            if o2.q == 0 and op in ("lt", "ge"):
+                return op == "ge"
+            if o2.q >= 0:
+                return self.sq._rel(R(q=o2.q * o2.q), op)
+            return {"lt": False, "le": False, "gt": True, "ge": True, "eq": False, "ne": True}[op]
+        return R._rel(self, o, op)
+
+    def __lt__(self, o):
+        return self._rel(o, "lt")
+
+    def __le__(self, o):
+        return self._rel(o, "le")
+
+    def __gt__(self, o):
+        return self._rel(o, "gt")
+
+    def __ge__(self, o):
+        return self._rel(o, "ge")
+
+    def __eq__(self, o):
+        return self._rel(o, "eq")
+
+    def __ne__(self, o):
+        return self._rel(o, "ne")
+
+    __hash__ = R.__hash__
+
+    def __repr__(self):
+        return "Norm<sq=%r>" % (self.sq,)
 
 
 numbers.Real.register(R)        # pyMOTO asks isinstance(x, numbers.Number) for padding values
